@@ -313,3 +313,6 @@ _p.update({"source": f"{SM}.execute", "receivers": [ASM], "probe": True,
            "drop_callee_ensures": {f"{SD}.run": ["CB-A1"]},
            "probe_only": ["ensures C13.X5"]})
 CONTRACTS[f"{SM}.execute#F4-without-CB-A1"] = _p
+# methods of invariant-carrying classes that are deliberately not under contract in THIS sidecar (checked structurally: any other
+# uncontracted method makes the check undecided): construction is verified in contracts/smdef.py and establishes the invariant
+UNCONTRACTED_OK = {"StateMachine": ["__new__", "_build_states"]}
